@@ -78,14 +78,16 @@ def S_single(k, N):
     return mp.zeta(k) - (-1) ** k * mp.polygamma(k - 1, N + 1) / mp.factorial(k - 1)
 
 
-def Sm_single(k, N, eta):
+def Sm_single(k, N, eta, error=False):
     """S_{-k}(N) with (-1)^N -> eta, from 1/j^k = (-1)^(k-1)/(k-1)! int x^(j-1) ln^(k-1) x.
 
     S_{-k}(N) = (-1)^(k-1)/(k-1)! * int_0^1 ln^(k-1)(x) (eta x^N - 1)/(1+x) dx
     """
     N = mp.mpmathify(N)
     f = lambda x: mp.log(x) ** (k - 1) * (eta * x**N - 1) / (1 + x)
-    return (-1) ** (k - 1) / mp.factorial(k - 1) * mp.quad(f, [0, mp.mpf(1) / 2, 1])
+    val, err = mp.quad(f, [0, mp.mpf(1) / 4, mp.mpf(1) / 2, mp.mpf(3) / 4, 1], error=True)
+    val = (-1) ** (k - 1) / mp.factorial(k - 1) * val
+    return (val, err) if error else val
 
 
 def mellin(f, N, pts=None):
